@@ -14,14 +14,22 @@ RULE = ("training/target journal pairs: training empty, without transactions, un
         "of 1-5 accounts (few distinct descriptions, so equal scores are frequent), with macro and placeholder sides; "
         "targets with the placeholder on the credit side, the debit side, both sides, several bookings per transaction, "
         "accounts unknown to the training file, other directives, comments, tabs, CRLF, @performance; default and custom "
-        "placeholder (-a); training file = target file.  `knut infer -a PH -t TRAINING TARGET` is run 10 times; its stdout "
-        "is re-parsed with the Go parser.  Model: the implementation's choices are handed to the model as the choice "
-        "function, the bytes must be equal and every choice must be one of the model's candidates.  Spec on the Go "
-        "output: infer_ok_b (only placeholder sides differ; each is a training account different from the other side of "
-        "its booking, or unchanged if there is none), gaps equal, output parses, the 10 runs agree, and every choice of "
-        "the binary is the choice of the model of the choice (Model/BayesScore.v, extracted, run with IEEE doubles and a "
-        "transcription of Go's math.Log for amd64: first maximum of the scores over the sorted candidates).  Non-trivial: the "
-        "target has at least one placeholder occurrence; distinct by input.")
+        "placeholder (-a); training file = target file.  In half of the cases the training journal is spread over an include "
+        "tree of 1-4 files (directories ., sub, sub/deep, other; file names that are tails of each other; include paths with "
+        "detours through ..; the include directive at a random position in the including file), with variations: a file "
+        "included a second time from another file, an include of a missing file, an include that closes a cycle, an "
+        "unparseable file somewhere in the tree; 8% designed diamonds in which a file reached over two include paths decides "
+        "a tie.  `knut infer -a PH -t TRAINING TARGET` is run 10 times (for trees under schedule perturbation and GOMAXPROCS "
+        "1/2/16, so that the files reach the trainer in varying order); its stdout is re-parsed with the Go parser.  Model: "
+        "Model/InferFs.v on the same file tree (Model/Loader.v resolves the includes: visited files, once per include path, "
+        "or the error); the implementation's choices are handed to the model as the choice function, the bytes must be equal "
+        "and every choice must be one of the model's candidates; if the model's load fails the command must fail and print "
+        "nothing.  Spec on the Go output: infer_ok_b against the meanings of all visited files (only placeholder sides "
+        "differ; each is a training account different from the other side of its booking, or unchanged if there is none), "
+        "gaps equal, output parses, the 10 runs agree, and every choice of the binary is the choice of the model of the "
+        "choice (Model/BayesScore.v, extracted, run with IEEE doubles and a transcription of Go's math.Log for amd64: first "
+        "maximum of the scores over the sorted candidates).  Non-trivial: the target has at least one placeholder "
+        "occurrence; distinct by input.")
 TRUSTED_BASE = [
     "Coq 8.16.1 kernel",
     "extraction + OCaml drivers drv_c07/c08/c15.ml (hex, reading the Go tree back, reading the choices off the output)",
@@ -29,10 +37,11 @@ TRUSTED_BASE = [
     "float64 arithmetic is abstract in the Coq model of the choice; for the comparison of the binary's choices with it the driver "
     "drv_c15.ml instantiates it with OCaml doubles, a hand transcription of Go's math.Log (log_amd64.s) and of strings.Fields / "
     "strings.ToLower for ASCII and Latin-1 (all the generator uses)",
-    "training files are read without includes in generated cases",
+    "the training journal's file tree is given to the model as path -> bytes; symbolic links, absolute include paths and "
+    "paths leaving the training directory are not generated",
 ]
 ASSUMPTIONS = ["-i (in place) is not exercised: the written bytes are the same FormatFile output (C08/C18)",
-               "nondeterminism is searched for with 10 runs per case"]
+               "nondeterminism is searched for with 10 runs per case (include trees: under schedule perturbation)"]
 
 
 def plan(tier, seed):
@@ -60,7 +69,9 @@ def nontrivial(c):
 
 def distribution(cases):
     d = {"ok": 0, "err": 0, "other": 0, "nondet": 0, "output_unparseable": 0, "variant": VARIANT,
-         "custom_placeholder": 0, "training_empty": 0, "training_is_target": 0, "placeholder_occurrences": 0, "spec": {}}
+         "custom_placeholder": 0, "training_empty": 0, "training_is_target": 0, "placeholder_occurrences": 0,
+         "training_tree": 0, "training_tree_files": {}, "training_tree_err": 0, "training_tree_ok_with_placeholder": 0,
+         "spec": {}}
     for c in cases:
         f = c.input.split(" ")
         if len(f) != 4:
@@ -72,6 +83,14 @@ def distribution(cases):
         if f[2] == f[3]:
             d["training_is_target"] += 1
         d["placeholder_occurrences"] += f[3].count(f[1])
+        if f[2].startswith("tree:"):
+            d["training_tree"] += 1
+            n = str(f[2].count("="))
+            d["training_tree_files"][n] = d["training_tree_files"].get(n, 0) + 1
+            if c.observed.startswith("ERR"):
+                d["training_tree_err"] += 1
+            elif c.observed.startswith("OK ") and f[1] in f[3]:
+                d["training_tree_ok_with_placeholder"] += 1
         if c.observed.startswith("OK "):
             d["ok"] += 1
             if c.observed.endswith("nondet"):
@@ -88,13 +107,15 @@ def distribution(cases):
 
 TECHNIQUE = ("Coq proof over a Gallina model of the repaired bayes.go (e8bd689) on the meaning of the parsed files: candidate "
              "set, substitution, printing via the C08 result format = render(meaning, gaps); round trip of the output by C08's "
-             "context lemmas (a candidate is an account text of the training file's parse, so the substituted meaning is "
+             "context lemmas (a candidate is an account text of the parse of a training file, so the substituted meaning is "
              "lexically valid and its rendering parses back to it); the choice (counts, tokenize, scoreCandidate in sorted "
              "token order, first maximum over the sorted candidates) modelled with abstract float64 operations and proved "
-             "independent of map enumeration and training order; byte-exact correspondence with the binary given its own "
-             "choices; the executable specification infer_ok_b evaluated on the Go parser's tree of the binary's output; "
-             "repeated runs for nondeterminism")
-LEVEL_TEXT = ("see Properties/C15.v (26 theorems, closed under the global context), all about the repaired code (variant Fixed; "
+             "independent of map enumeration and training order; the training load over an include tree modelled by running "
+             "the verified include loader of C05/C14 (Model/Loader.v) on the skeleton of the file tree, the result proved a "
+             "function of the multiset of training transactions (layout and arrival order irrelevant, cycle = error); "
+             "byte-exact correspondence with the binary given its own choices; the executable specification infer_ok_b "
+             "evaluated on the Go parser's tree of the binary's output; repeated runs under schedule perturbation")
+LEVEL_TEXT = ("see Properties/C15.v (43 theorems, closed under the global context), all about the repaired code (variant Fixed; "
               "Orig only in *_refuted). For every valid choice function: C15_only_placeholder, C15_candidate_valid, "
               "C15_candidates_from_training, C15_no_candidate_unchanged, C15_fixed_meets_spec; C15_parses / C15_roundtrip "
               "(class_ok as in C08; C15_parses_unicode without hypothesis): the output parses, the parse has exactly the "
@@ -106,11 +127,24 @@ LEVEL_TEXT = ("see Properties/C15.v (26 theorems, closed under the global contex
               "C15_choice_first_max + C15_first_max_unique (first maximum of the sorted candidates: the tie-break), "
               "C15_choice_invariant (a function of the multiset of training events, the set of tokens and the set of map "
               "keys: independent of Go's map order), C15_training_order_irrelevant, C15_scored_is_infer_with, "
-              "C15_infer_correct (the whole property for the command with its real choice). Code before e8bd689: "
-              "C15_no_candidate_unchanged_refuted, C15_parses_refuted, C15_differs_refuted (findings/C15-infer.md, F10).")
+              "C15_infer_correct (the whole property for the command with its real choice). The training journal over an "
+              "include tree (Model/InferFs.v: syntax.ParseFileRecursively = Model/Loader.v on the skeleton of the file tree, "
+              "training on every visited file), all at full strength: C15_training_files_are_visits (from C05_layout) and "
+              "its converse C15_finite_tree_loads (a finite include tree of parseable files loads; Proofs/LoaderVisits.v), "
+              "C15_training_load_terminates (C14), C15_training_layout_irrelevant (two file trees of any shape whose visited "
+              "files hold permutations of the same transactions give the same result on every target: the output is a "
+              "function of the multiset of training transactions), C15_training_arrival_irrelevant (any arrival order of the "
+              "files), C15_training_tree_as_one_file, C15_training_without_includes (= the one-file command), "
+              "C15_training_cycle_is_error and C15_training_bad_file_is_error (exit 1, nothing printed), and the one-file "
+              "theorems restated for the command on a file tree: C15_fs_scored_is_infer_with, "
+              "C15_fs_candidates_from_training, C15_fs_roundtrip (only placeholder sides change, infer_ok_b, gaps, formatted "
+              "form), C15_fs_total, C15_fs_idempotent, C15_fs_rest_is_format, C15_fs_infer_correct(_unicode). Code before "
+              "e8bd689: C15_no_candidate_unchanged_refuted, C15_parses_refuted, C15_differs_refuted (findings/C15-infer.md, F10).")
 LEVEL_NOTE = ("Trusted: kernel, extraction, drivers, harness. The float64 operations (math.Log, +, >) and strings.Fields / "
               "strings.ToLower are abstract in the model of the choice: the theorems hold for any such functions. WHICH "
               "candidate wins is compared with the binary on every generated case by running the extracted model with IEEE "
               "doubles and a transcription of Go's amd64 math.Log (trusted, not proved; verdict choice-differs-from-model); "
               "for the byte comparison the binary's choices are handed to the model. That the Go runtime computes the same "
-              "float64 values on every run is sampled with 10 runs per case. Includes in the training file are not modelled.")
+              "float64 values on every run is sampled with 10 runs per case. Includes in the training file are modelled "
+              "(Model/InferFs.v on Model/Loader.v) and generated in half of the cases; the file system is a map from cleaned "
+              "relative paths to bytes (no symbolic links; an unreadable file is a file that does not parse).")
